@@ -351,6 +351,8 @@ def norm_value(ir, value):
                 out.append(("b", bytes(part).hex()))
         elif isinstance(part, tuple) and len(part) == 2:
             out.append(("ptr", str(part[1])))
+        elif isinstance(part, tuple) and len(part) == 3:
+            out.append(("ptr", str(part[1]), part[2]))     # address constant with a byte offset
         else:
             out.append(("?", repr(part)))
     return tuple(out)
